@@ -48,6 +48,33 @@ def make_trainer(kind, sign, mode, delayed, reduction):
     raise ValueError(kind)
 
 
+def make_trainer_overridden(kind, sign, mode, delayed, reduction):
+    """The constructor's hyper-parameters are defaults that register_cell(..., **overrides) may replace cell by cell: returns a
+    trainer built with *decoy* defaults (opposite signs, swapped magnitudes and time constants, the other trace mode, the other
+    delay mode, another reduction) and the overrides that make the cell behave like ``make_trainer(kind, sign, mode, delayed,
+    reduction)``. Anything still read from the trainer-level default instead of the per-cell state gives a wrong update."""
+    sp, sn = SIGNS[sign]
+    other = "nearest" if mode == "cumulative" else "cumulative"
+    decoy_red = torch.amax
+    red = reduction if reduction is not None else (torch.sum if kind in ("mstdp", "mstdpet") else torch.mean)
+    if kind == "stdp":
+        tr = STDP(-sp * LRN, -sn * LRP, TC_PRE, TC_POST, delayed=not delayed, trace_mode=other, batch_reduction=decoy_red)
+        ov = dict(lr_post=sp * LRP, lr_pre=sn * LRN, tc_post=TC_POST, tc_pre=TC_PRE, delayed=delayed, trace_mode=mode, batch_reduction=red)
+    elif kind == "mstdp":
+        tr = MSTDP(-sp * LRN, -sn * LRP, TC_PRE, TC_POST, delayed=not delayed, trace_mode=other, batch_reduction=decoy_red)
+        ov = dict(lr_post=sp * LRP, lr_pre=sn * LRN, tc_post=TC_POST, tc_pre=TC_PRE, delayed=delayed, trace_mode=mode, batch_reduction=red)
+    elif kind == "mstdpet":
+        tr = MSTDPET(-sp * LRN, -sn * LRP, TC_PRE, TC_POST, TC_Z * 2, trace_mode=other, batch_reduction=decoy_red)
+        ov = dict(lr_post=sp * LRP, lr_pre=sn * LRN, tc_post=TC_POST, tc_pre=TC_PRE, tc_eligibility=TC_Z, trace_mode=mode, batch_reduction=red)
+    else:
+        tr = TripletSTDP(-sp * LRN, TRIP["lr_pre_triplet"], -sn * LRP, TRIP["lr_post_triplet"], TRIP["tc_pre_fast"], TRIP["tc_pre_slow"],
+                         TRIP["tc_post_fast"], TRIP["tc_post_slow"], delayed=not delayed, trace_mode=other, batch_reduction=decoy_red)
+        ov = dict(lr_post_pair=sp * LRP, lr_post_triplet=TRIP["lr_post_triplet"], lr_pre_pair=sn * LRN, lr_pre_triplet=TRIP["lr_pre_triplet"],
+                  tc_post_fast=TRIP["tc_post_fast"], tc_post_slow=TRIP["tc_post_slow"], tc_pre_fast=TRIP["tc_pre_fast"], tc_pre_slow=TRIP["tc_pre_slow"],
+                  delayed=delayed, trace_mode=mode, batch_reduction=red)
+    return tr, ov
+
+
 def reference(kind, sign, mode, dt, pre_syn, post, K, signal=None, gamma=1.0):
     """per-sample signed contribution stream: returns (T, B, F, N) float64 = (pos - neg) before batch reduction,
     and the per-sample potentiating / depressing magnitudes"""
@@ -115,8 +142,9 @@ def drive(tally, case, spec, dt, trainer, layer, pre_bits, post_bits, sigs, gamm
     return out
 
 
-def history_shard(kind, conn, nio, T, dt, sign, mode, delay_cfg, sigpat):
-    """Part A: all histories as batch, identity reduction"""
+def history_shard(kind, conn, nio, T, dt, sign, mode, delay_cfg, sigpat, override=False):
+    """Part A: all histories as batch, identity reduction. override: the hyper-parameters reach the cell as register_cell
+    overrides of a trainer constructed with decoy defaults."""
     tally = Tally()
     spec = Cellspec(conn, *nio)
     hs = all_histories(T, spec.in_bits + spec.out_bits)
@@ -140,14 +168,18 @@ def history_shard(kind, conn, nio, T, dt, sign, mode, delay_cfg, sigpat):
             variants.append((dmode, maxk * dt, d))
     for dmode, maxdelay, delays in variants:
         case = {"trainer": kind, "conn": conn, "io": list(nio), "T": T, "dt": dt, "sign": sign, "trace_mode": mode, "delayed_mode": dmode,
-                "delays": None if delays is None else delays.tolist(), "signal": sigpat, "batch=histories": B}
+                "delays": None if delays is None else delays.tolist(), "signal": sigpat, "batch=histories": B, "per_cell_overrides": override}
         tally.add("evaluations")
         if kind == "mstdpet" and dmode == "delayed":
             continue  # MSTDPET has no delayed mode
         try:
             layer = spec.build(dt, B, maxdelay, delays)
-            trainer = make_trainer(kind, sign, mode, dmode == "delayed", identity_reduction)
-            trainer.register_cell("cell", layer.cell)
+            if override:
+                trainer, ov = make_trainer_overridden(kind, sign, mode, dmode == "delayed", identity_reduction)
+                trainer.register_cell("cell", layer.cell, **ov)
+            else:
+                trainer = make_trainer(kind, sign, mode, dmode == "delayed", identity_reduction)
+                trainer.register_cell("cell", layer.cell)
         except Exception as ex:
             tally.violation(f"exception:register:{kind}:{type(ex).__name__}", case, repr(ex))
             continue
@@ -172,7 +204,7 @@ def history_shard(kind, conn, nio, T, dt, sign, mode, delay_cfg, sigpat):
             badi = (diff > 1e-5).nonzero().reshape(-1)
             if len(badi):
                 b = int(badi[0])
-                tally.violation(f"pair-sum:{kind}:{conn}:{sign}:{mode}:{dmode}", {**case, "step": t, "pre_history": [pre_bits[u][b] for u in range(t + 1)],
+                tally.violation(f"pair-sum:{kind}:{conn}:{sign}:{mode}:{dmode}{':overridden' if override else ''}", {**case, "step": t, "pre_history": [pre_bits[u][b] for u in range(t + 1)],
                                 "post_history": [post_bits[u][b] for u in range(t + 1)]},
                                 f"step {t}: accumulated pos-neg = {g[b].reshape(-1).tolist()}, pair-sum reference {exp[b].reshape(-1).tolist()} "
                                 f"(pre {[pre_bits[u][b] for u in range(t + 1)]}, post {[post_bits[u][b] for u in range(t + 1)]})", exp[b].tolist(), g[b].tolist())
@@ -195,7 +227,7 @@ def history_shard(kind, conn, nio, T, dt, sign, mode, delay_cfg, sigpat):
                                     f"step {t}: {nm} part {pv[b].reshape(-1).tolist()} but the {'positively' if nm == 'pos' else 'negatively'} signed terms sum to "
                                     f"{pref[b].reshape(-1).tolist()}", pref[b].tolist(), pv[b].tolist())
                     break
-        tally.mark("nontrivial", (kind, conn, nio, T, dt, sign, mode, dmode, None if delays is None else tuple(delays.reshape(-1).tolist()), sigpat))
+        tally.mark("nontrivial", (kind, conn, nio, T, dt, sign, mode, dmode, None if delays is None else tuple(delays.reshape(-1).tolist()), sigpat, override))
     tally.add("histories", B * len(variants))
     tally.sample({"trainer": kind, "conn": conn, "T": T, "dt": dt, "sign": sign, "trace_mode": mode, "delay": delay_cfg, "histories_as_batch": B})
     return tally
@@ -459,6 +491,12 @@ def run(rep):
                         if not (quick and dt == 0.5 and mode == "nearest"):
                             for dmode in ("frozen", "delayed"):
                                 jobs.append((history_shard, (kind, "dense", (1, 1), T1, dt, sign, mode, (dmode, 2), sp)))
+        # hyper-parameters given as per-cell overrides of a trainer with decoy defaults
+        for sign in SIGNS:
+            for mode in ("cumulative", "nearest"):
+                sp = "stepalt" if kind in ("mstdp", "mstdpet") else "pos"
+                jobs.append((history_shard, (kind, "dense", (1, 1), T1, 1.0, sign, mode, None, sp, True)))
+                jobs.append((history_shard, (kind, "dense", (1, 1), T1 - 1, 1.0, sign, mode, ("delayed", 1), sp, True)))
         # index / transposition faults: 2x2 and friends, all histories of length T2 (hebbian + dep, cumulative)
         for conn, nio in (("dense", (2, 2)), ("direct", (2, 2)), ("lateral", (2, 2)), ("conv", (1, 1)), ("conv2c", (1, 1)), ("dense", (2, 1)), ("dense", (1, 2))):
             for sign in ("hebbian", "anti"):
